@@ -85,6 +85,8 @@ func eHandler(o *eObs, steps []string) http.HandlerFunc {
 				vrt.Sleep(time.Duration(ms) * time.Millisecond)
 			case s == "P":
 				panic("handler-panic")
+			case s == "PA":
+				panic(http.ErrAbortHandler)
 			}
 		}
 	}
@@ -119,6 +121,7 @@ func TestVerifEngineChain(t *testing.T) {
 		{[]string{"Ba", "S150", "Bb"}, `200|X-H=|"ab"`},
 		{[]string{"P"}, `500|X-H=|""`},
 		{[]string{"S150", "P"}, `500|X-H=|""`},
+		{[]string{"PA"}, `500|X-H=|""`},
 	}
 	for i, s := range scs {
 		if !vrt.Shard(i + 300) {
